@@ -237,7 +237,7 @@ Section Unknown.
 
   (* ---- Load of a file with unknown block types ---- *)
   Theorem load_unknown : forall s t pays bs0,
-    walkb s = Some (t, pays) -> wf_tables t -> supported (h_ver t) = true ->
+    walkb s = Some (t, pays) -> wf_tables (clip_tables t) -> supported (h_ver t) = true ->
     vlen pays = h_nblocks t -> blocks_ok t 0 pays bs0 ->
     exists m, load s = Loaded _ m /\ m_hdr _ m = t /\ same_unknown bs0 (m_blocks _ m) /\
               m_has_unknown _ m = existsb is_unknown bs0.
@@ -252,7 +252,8 @@ Section Unknown.
     2:{ simpl. symmetry. assumption. }
     2:{ unfold vlen in Cnt. lia. }
     assert (Hs : ge (v_file (h_ver t)) V20_1_0_1 = true) by (unfold ge, V20_1_0_1, V20_2_0_5 in *; lia).
-    pose proof (wf_strings _ Wf) as WS. rewrite Hs in WS. destruct WS as (WS1 & _).
+    pose proof (wf_strings _ Wf) as WS. unfold clip_tables in WS.
+    cbn [h_ver h_nstrings h_maxlen h_strings] in WS. rewrite Hs in WS. destruct WS as (WS1 & _).
     unfold fill_string_refs. unfold ge in Hs. destruct (v_file (h_ver t) <? V20_1_0_1) eqn:E; [lia|].
     destruct (fill_blocks_total (tab_of t) (map refs_of_block bs0) WS1) as [rss ->].
     eexists. split; [reflexivity|]. cbn [m_hdr m_blocks m_has_unknown]. split; [reflexivity|].
@@ -354,14 +355,14 @@ Section Unknown.
 
   (* ---- C03: Load then Save with either option set ---- *)
   Theorem unknown_payload : forall s t pays bs0 o,
-    walkb s = Some (t, pays) -> wf_tables t -> supported (h_ver t) = true ->
+    walkb s = Some (t, pays) -> wf_tables (clip_tables t) -> supported (h_ver t) = true ->
     vlen pays = h_nblocks t -> blocks_ok t 0 pays bs0 -> existsb is_unknown bs0 = true ->
     exists m m', load s = Loaded _ m /\ pre_save o m = Ok m' /\
       (* writable strings and payloads of the known blocks (their codecs are another layer) *)
       (Forall str4_ok (h_strings (m_hdr _ m')) -> u32 (vlen (h_strings (m_hdr _ m'))) ->
-       Forall (fun b => u32 (vlen (payload_of (m_hdr _ m') b))) (m_blocks _ m') ->
+       Forall (fun b => u32 (vlen (payload_of (clip_tables (m_hdr _ m')) b))) (m_blocks _ m') ->
        exists bytes pays' t',
-         save o m = Ok (bytes, m') /\ walkb bytes = Some (t', pays') /\
+         save o m = Ok (bytes, clip_model blk m') /\ walkb bytes = Some (t', pays') /\
          length pays' = length pays /\
          h_nblocks t' = h_nblocks t /\ h_types t' = h_types t /\ h_tidx t' = h_tidx t /\
          unknown_slices bs0 pays' = unknown_slices bs0 pays /\
@@ -374,7 +375,8 @@ Section Unknown.
     assert (Hv : ge (v_file (h_ver t)) V20_2_0_5 = true).
     { unfold walkb in Wk. rewrite G in Wk. destruct (ge (v_file (h_ver t)) V20_2_0_5); [reflexivity|discriminate]. }
     assert (Hs : ge (v_file (h_ver t)) V20_1_0_1 = true) by (unfold ge, V20_1_0_1, V20_2_0_5 in *; lia).
-    pose proof (wf_strings _ Wf) as WS. rewrite Hs in WS. destruct WS as (WS1 & WS2 & _).
+    pose proof (wf_strings _ Wf) as WS. unfold clip_tables in WS.
+    cbn [h_ver h_nstrings h_maxlen h_strings] in WS. rewrite Hs in WS. destruct WS as (WS1 & WS2 & _).
     assert (TI : tab_inv (tab_of (m_hdr _ m))).
     { rewrite Hh. split; [exact WS1|]. cbn [tab_of st_strings]. rewrite <- WS1. unfold u32, cNPOS in *. lia. }
     rewrite EX in HU.
@@ -386,26 +388,26 @@ Section Unknown.
     { eapply same_unknown_sized; [exact SU2|]. eapply blocks_ok_sized; eauto. }
     assert (LN : length (m_blocks _ m') = length pays).
     { rewrite (same_unknown_length _ _ SU2). eapply blocks_ok_length; eauto. }
-    set (ps' := map (payload_of (m_hdr _ m')) (m_blocks _ m')).
-    assert (Wt' : wf_tables (m_hdr _ m')).
-    { rewrite Eh. rewrite Eh in Hstr, Hcnt. unfold set_tab in Hstr, Hcnt. cbn [h_strings] in Hstr, Hcnt.
+    set (ps' := map (payload_of (clip_tables (m_hdr _ m'))) (m_blocks _ m')).
+    assert (Wt' : wf_tables (clip_tables (m_hdr _ m'))).
+    { rewrite Eh. change (wf_tables (set_tab (clip_tables t) tb')). rewrite Eh in Hstr, Hcnt. unfold set_tab in Hstr, Hcnt. cbn [h_strings] in Hstr, Hcnt.
       destruct I' as [I1 I2]. apply wf_set_tab; try assumption.
       - rewrite I1. exact Hcnt.
       - rewrite Eml. destruct (v_file (h_ver t) <? V20_1_0_1) eqn:EV; [unfold ge in Hs; lia|].
         apply max_string_len_u32. }
-    assert (Wm : wf_model blk put_blk m' ps').
-    { constructor.
+    assert (Wm : wf_model blk put_blk (clip_model blk m') ps').
+    { constructor; unfold clip_model; cbn [m_hdr m_blocks m_has_unknown].
       - exact Wt'.
       - rewrite Eh. exact Hv.
-      - rewrite Eh. unfold set_tab. cbn [h_nblocks]. rewrite <- Cnt. unfold vlen. rewrite LN. reflexivity.
+      - rewrite Eh. unfold set_tab, clip_tables. cbn [h_nblocks]. rewrite <- Cnt. unfold vlen. rewrite LN. reflexivity.
       - unfold ps'. clear -SZD. induction SZD; simpl; constructor; [apply put_block_payload; assumption|assumption].
       - unfold ps'. clear -Hpay. induction Hpay; simpl; constructor; assumption. }
-    destruct (walk_save blk put_blk m' ps' Wm) as (bytes & hb & S1 & S2 & S3 & S4 & S5).
-    exists bytes, ps', (set_sizes (m_hdr _ m') (map (@vlen N) ps')).
+    destruct (walk_save_long blk put_blk m' ps' Wm) as (bytes & hb & S1 & S2 & S3 & S4 & S5).
+    exists bytes, ps', (set_sizes (clip_tables (m_hdr _ m')) (map (@vlen N) ps')).
     split; [unfold ContainerModel.save; rewrite PS; cbn [bind]; exact S1|].
     split; [exact S4|].
     split; [unfold ps'; rewrite map_length; exact LN|].
-    rewrite Eh. unfold set_sizes, set_tab. cbn [h_nblocks h_types h_tidx h_sizes h_strings].
+    rewrite Eh. unfold set_sizes, set_tab, clip_tables. cbn [h_nblocks h_types h_tidx h_sizes h_strings].
     repeat (split; [reflexivity|]).
     assert (P1 : unknown_slices bs0 ps' = unknown_slices bs0 pays).
     { unfold ps'. rewrite (same_unknown_payloads _ _ _ SU2). symmetry. eapply blocks_ok_slices; eauto. }
